@@ -9,11 +9,11 @@ EXTENDS Reject, Json, IOUtils, SequencesExt, TLC
 Recs == JsonDeserialize(IOEnv.VERIF_TRACE)
 VARIABLES i, ok, why
 
-(* ---- djs_reject: scale holds sigma (mode "sigma") or sqrt(invvar) (mode "invvar") ---- *)
+(* ---- djs_reject: scale holds sigma (mode "sigma") or sqrt(invvar) (mode "weight") ---- *)
 RejCall(r) ==
   [n |-> r.n,
    diff |-> [k \in 1..r.n |-> Sub(r.data[k], r.model[k])],
-   w |-> [k \in 1..r.n |-> IF r.mode = "sigma" THEN Inv(r.scale[k]) ELSE r.scale[k]],
+   mode |-> r.mode, scale |-> r.scale,
    lower |-> r.lower, upper |-> r.upper, maxdev |-> r.maxdev,
    inmask |-> ToSet(r.inmask), prev |-> ToSet(r.prev), sticky |-> r.sticky, grow |-> r.grow]
 RejVerdict(r) ==
